@@ -1,2 +1,277 @@
-(* Proofs/FastqProofsC.v *)
+(* Proofs/FastqProofsC.v — structural corruptions are rejected: one error item,
+   never a fabricated record, after the intact preceding records. *)
+From Coq Require Import String.
 From Bio Require Import Base.
+From Bio.Model Require Import Fastq.
+From Bio.Spec Require Import FastqSpec.
+From Bio.Proofs Require Import FastqProofs FastqProofsB.
+
+(* ------------------------------------------------------------------ *)
+(* token level: when reader.read() fails (any terminal condition)       *)
+
+Lemma err_no_at : forall t t1 rest, ~ starts_with AT t1 ->
+  decode_toks t (t1 :: rest) = [ErrItem].
+Proof.
+  intros t t1 rest H. rewrite decode_toks_eq. unfold read_with.
+  destruct t1 as [|c nm]. reflexivity.
+  destruct (N.eqb_spec c AT) as [E|E].
+  - exfalso. apply H. exists nm. rewrite E. reflexivity.
+  - reflexivity.
+Qed.
+
+Lemma err_short : forall t toks, (1 <= length toks <= 3)%nat ->
+  decode_toks t toks = [ErrItem].
+Proof.
+  intros t toks H. rewrite decode_toks_eq. unfold read_with.
+  destruct toks as [|t1 [|t2 [|t3 [|t4 r]]]]; cbn [length] in H; try lia;
+    destruct t1 as [|c nm]; try reflexivity;
+    destruct (negb (c =? AT)); try reflexivity;
+    try (destruct t; reflexivity).
+  destruct (negb (has_plus_prefix t3)); try reflexivity.
+  destruct t; reflexivity.
+Qed.
+
+Lemma err_no_plus : forall t t1 t2 t3 rest, has_plus_prefix t3 = false ->
+  decode_toks t (t1 :: t2 :: t3 :: rest) = [ErrItem].
+Proof.
+  intros t t1 t2 t3 rest H. rewrite decode_toks_eq. unfold read_with.
+  destruct t1 as [|c nm]. reflexivity.
+  destruct (negb (c =? AT)). reflexivity.
+  rewrite H. reflexivity.
+Qed.
+
+Lemma err_length : forall t t1 t2 t3 t4 rest, length t4 <> length t2 ->
+  decode_toks t (t1 :: t2 :: t3 :: t4 :: rest) = [ErrItem].
+Proof.
+  intros t t1 t2 t3 t4 rest H. rewrite decode_toks_eq. unfold read_with.
+  destruct t1 as [|c nm]. reflexivity.
+  destruct (negb (c =? AT)). reflexivity.
+  destruct (negb (has_plus_prefix t3)). reflexivity.
+  match goal with |- context [Nat.eqb ?a ?b] =>
+    replace (Nat.eqb a b) with false by (symmetry; apply Nat.eqb_neq; exact H) end.
+  reflexivity.
+Qed.
+
+(* ------------------------------------------------------------------ *)
+(* from lines to tokens                                                 *)
+
+Lemma starts_with_drop_cr : forall b l, ~ starts_with b l -> ~ starts_with b (drop_cr l).
+Proof.
+  intros b l H [r E]. apply drop_cr_head in E. apply H. exact E.
+Qed.
+
+Lemma no_plus_token : forall l, ~ starts_with PLUS l -> has_plus_prefix (drop_cr l) = false.
+Proof.
+  intros l H. apply starts_with_drop_cr in H. destruct (drop_cr l) as [|c r]. reflexivity.
+  unfold has_plus_prefix. apply N.eqb_neq. intro E. apply H. exists r. rewrite E. reflexivity.
+Qed.
+
+(* a line body followed by the end of input or by LF and anything *)
+Lemma scan_tokens_eol : forall l tail, no_lf l -> eol tail ->
+  (l ++ tail = [] /\ scan_tokens (l ++ tail) = [])
+  \/ exists rest, scan_tokens (l ++ tail) = drop_cr l :: rest.
+Proof.
+  intros l tail H [E|[rest E]]; subst tail.
+  - rewrite app_nil_r. destruct l as [|c l].
+    + left. split; reflexivity.
+    + right. exists []. apply scan_tokens_last. exact H. discriminate.
+  - right. exists (scan_tokens rest). apply scan_tokens_line. exact H.
+Qed.
+
+Lemma scan_tokens_text : forall ls c, text_of ls c -> scan_tokens c = map drop_cr ls.
+Proof.
+  intros ls c H. induction H as [|l Hl Hne|l ls c Hl H IH].
+  - reflexivity.
+  - apply scan_tokens_last; assumption.
+  - rewrite scan_tokens_line by exact Hl. rewrite IH. reflexivity.
+Qed.
+
+(* ------------------------------------------------------------------ *)
+(* every corruption class is an error, and nothing else                 *)
+
+Lemma corrupt_rejected : forall t c, Corrupt c -> decode c t = [ErrItem].
+Proof.
+  intros t c H. unfold decode. destruct H as
+    [l1 tail H1 Ht Hne Hat
+    |l1 l2 l3 tail H1 H2 H3 Ht Hplus
+    |l1 l2 l3 l4 tail H1 H2 H3 H4 Ht Hlen
+    |ls c Htext Hn].
+  - destruct (scan_tokens_eol l1 tail H1 Ht) as [[E _]|[rest E]].
+    + contradiction.
+    + rewrite E. apply err_no_at. apply starts_with_drop_cr. exact Hat.
+  - rewrite scan_tokens_line by exact H1. rewrite scan_tokens_line by exact H2.
+    destruct (scan_tokens_eol l3 tail H3 Ht) as [[_ E]|[rest E]]; rewrite E.
+    + apply err_short. cbn [length]. lia.
+    + apply err_no_plus. apply no_plus_token. exact Hplus.
+  - rewrite scan_tokens_line by exact H1. rewrite scan_tokens_line by exact H2.
+    rewrite scan_tokens_line by exact H3.
+    destruct (scan_tokens_eol l4 tail H4 Ht) as [[_ E]|[rest E]]; rewrite E.
+    + apply err_short. cbn [length]. lia.
+    + apply err_length. exact Hlen.
+  - rewrite (scan_tokens_text ls c Htext). apply err_short. rewrite map_length. exact Hn.
+Qed.
+
+(* C02, second half. *)
+Lemma corruption : forall pre c, Forall fq_ok pre -> Corrupt c ->
+  decode (concat (map write pre) ++ c) TEOF = map Rec pre ++ [ErrItem].
+Proof.
+  intros pre c Hpre Hc. rewrite decode_prefix by exact Hpre.
+  rewrite (corrupt_rejected TEOF c Hc). reflexivity.
+Qed.
+
+(* the same when the stream ends with a read error instead of EOF *)
+Lemma corruption_any_term : forall t pre c, Forall fq_ok pre -> Corrupt c ->
+  decode (concat (map write pre) ++ c) t = map Rec pre ++ [ErrItem].
+Proof.
+  intros t pre c Hpre Hc. rewrite decode_prefix by exact Hpre.
+  rewrite (corrupt_rejected t c Hc). reflexivity.
+Qed.
+
+(* The concrete corruptions of a valid record that the property lists, as
+   instances of [Corrupt] (they show the classes are inhabited by what one
+   expects: a record of the domain with one line damaged, then anything). *)
+
+Lemma corrupt_missing_at : forall r rest, fq_ok r -> ~ starts_with AT (name r) ->
+  Corrupt (name r ++ LF :: seq r ++ LF :: PLUS :: LF :: quals r ++ LF :: rest).
+Proof.
+  intros r rest (Hn & _) Hat.
+  apply (Corrupt_no_at (name r) (LF :: _)).
+  - apply field_ok_no_lf. exact Hn.
+  - right. eexists. reflexivity.
+  - destruct (name r); discriminate.
+  - exact Hat.
+Qed.
+
+Lemma corrupt_missing_plus : forall r l3 rest, fq_ok r -> no_lf l3 -> ~ starts_with PLUS l3 ->
+  Corrupt ((AT :: name r) ++ LF :: seq r ++ LF :: l3 ++ LF :: quals r ++ LF :: rest).
+Proof.
+  intros r l3 rest (Hn & Hs & _) H3 Hp.
+  apply (Corrupt_no_plus (AT :: name r) (seq r) l3 (LF :: _)).
+  - apply at_no_lf, field_ok_no_lf. exact Hn.
+  - apply field_ok_no_lf. exact Hs.
+  - exact H3.
+  - right. eexists. reflexivity.
+  - exact Hp.
+Qed.
+
+Lemma corrupt_quals_length : forall nm sq ql rest,
+  field_ok nm -> field_ok sq -> field_ok ql -> length ql <> length sq ->
+  Corrupt ((AT :: nm) ++ LF :: sq ++ LF :: [PLUS] ++ LF :: ql ++ LF :: rest).
+Proof.
+  intros nm sq ql rest Hn Hs Hq Hlen.
+  apply (Corrupt_length (AT :: nm) sq [PLUS] ql (LF :: rest)).
+  - apply at_no_lf, field_ok_no_lf. exact Hn.
+  - apply field_ok_no_lf. exact Hs.
+  - exact plus_no_lf.
+  - apply field_ok_no_lf. exact Hq.
+  - right. eexists. reflexivity.
+  - unfold content. rewrite (field_ok_drop_cr _ Hs), (field_ok_drop_cr _ Hq). exact Hlen.
+Qed.
+
+(* a valid record cut after its first, second or third line *)
+Lemma corrupt_cut_record : forall r k, fq_ok r -> (1 <= k <= 3)%nat ->
+  Corrupt (unlines (firstn k (record_lines r))).
+Proof.
+  intros r k (Hn & Hs & Hq & _) Hk.
+  assert (N1 := at_no_lf _ (field_ok_no_lf _ Hn)).
+  assert (N2 := field_ok_no_lf _ Hs).
+  assert (N3 := plus_no_lf).
+  apply (Corrupt_cut (firstn k (record_lines r))).
+  - destruct k as [|[|[|[|k]]]]; try lia; unfold record_lines, unlines;
+      cbn [firstn map concat]; rewrite ?app_nil_r;
+      repeat (rewrite <- ?app_assoc; cbn [app]).
+    + apply (text_cons (AT :: name r) [] []). exact N1. apply text_nil.
+    + apply (text_cons (AT :: name r) [seq r] (seq r ++ [LF])). exact N1.
+      apply (text_cons (seq r) [] []). exact N2. apply text_nil.
+    + apply (text_cons (AT :: name r) [seq r; [PLUS]] (seq r ++ LF :: PLUS :: [LF])). exact N1.
+      apply (text_cons (seq r) [[PLUS]] (PLUS :: [LF])). exact N2.
+      apply (text_cons [PLUS] [] []). exact N3. apply text_nil.
+  - destruct k as [|[|[|[|k]]]]; try lia; cbn; lia.
+Qed.
+
+(* ------------------------------------------------------------------ *)
+(* concrete instances used as non-vacuity examples in Properties/C02.v  *)
+
+Ltac no_lf_tac := let H := fresh in intro H; vm_compute in H; intuition discriminate.
+
+Definition ex_r1 : fastq := {| name := bs "@read 1/2"; seq := bs "+"; quals := bs "@" |}.
+Definition ex_r2 : fastq := {| name := bs ""; seq := bs ""; quals := bs "" |}.
+Definition ex_r3 : fastq := {| name := bs "r3"; seq := bs "ACGT"; quals := bs "+I@!" |}.
+
+Lemma ex_domain : Forall fq_ok [ex_r1; ex_r2; ex_r3].
+Proof. repeat constructor; apply fq_okb_spec; vm_compute; reflexivity. Qed.
+
+Lemma ex_roundtrip :
+  concat (map write [ex_r1; ex_r2; ex_r3])
+    = bs "@@read 1/2" ++ LF :: bs "+" ++ LF :: bs "+" ++ LF :: bs "@" ++ LF ::
+      bs "@" ++ LF :: LF :: bs "+" ++ LF :: LF ::
+      bs "@r3" ++ LF :: bs "ACGT" ++ LF :: bs "+" ++ LF :: bs "+I@!" ++ [LF]
+  /\ decode (concat (map write [ex_r1; ex_r2; ex_r3])) TEOF = [Rec ex_r1; Rec ex_r2; Rec ex_r3].
+Proof. split; vm_compute; reflexivity. Qed.
+
+(* outside the domain: a name ending in CR does not survive (the hypothesis
+   "free of CR" is needed), and a record whose qualities are shorter is not
+   read back at all *)
+Lemma ex_domain_needed :
+  decode (write {| name := bs "a" ++ [CR]; seq := bs "AC"; quals := bs "II" |}) TEOF
+    = [Rec {| name := bs "a"; seq := bs "AC"; quals := bs "II" |}]
+  /\ decode (write {| name := bs "a"; seq := bs "AC"; quals := bs "I" |}) TEOF = [ErrItem].
+Proof. split; vm_compute; reflexivity. Qed.
+
+Lemma ex_corrupt_no_at : Corrupt (bs "r2" ++ LF :: bs "AC" ++ LF :: bs "+" ++ LF :: bs "II" ++ [LF]).
+Proof.
+  apply (Corrupt_no_at (bs "r2") (LF :: bs "AC" ++ LF :: bs "+" ++ LF :: bs "II" ++ [LF])).
+  - no_lf_tac.
+  - right. eexists. reflexivity.
+  - discriminate.
+  - intros [r E]. discriminate E.
+Qed.
+
+Lemma ex_corrupt_blank_line : Corrupt (LF :: bs "@r2" ++ LF :: bs "AC" ++ LF :: bs "+" ++ LF :: bs "II" ++ [LF]).
+Proof.
+  apply (Corrupt_no_at [] (LF :: bs "@r2" ++ LF :: bs "AC" ++ LF :: bs "+" ++ LF :: bs "II" ++ [LF])).
+  - intros [].
+  - right. eexists. reflexivity.
+  - discriminate.
+  - intros [r E]. discriminate E.
+Qed.
+
+Lemma ex_corrupt_no_plus : Corrupt (bs "@r2" ++ LF :: bs "AC" ++ LF :: bs "-" ++ LF :: bs "II" ++ [LF]).
+Proof.
+  apply (Corrupt_no_plus (bs "@r2") (bs "AC") (bs "-") (LF :: bs "II" ++ [LF])).
+  - no_lf_tac.
+  - no_lf_tac.
+  - no_lf_tac.
+  - right. eexists. reflexivity.
+  - intros [r E]. discriminate E.
+Qed.
+
+(* CRLF line ends: the lengths compared are those without the CR *)
+Lemma ex_corrupt_length_crlf :
+  Corrupt (bs "@r2" ++ CR :: LF :: bs "AC" ++ CR :: LF :: bs "+" ++ CR :: LF :: bs "III" ++ CR :: [LF]).
+Proof.
+  apply (Corrupt_length (bs "@r2" ++ [CR]) (bs "AC" ++ [CR]) (bs "+" ++ [CR]) (bs "III" ++ [CR]) [LF]).
+  - no_lf_tac.
+  - no_lf_tac.
+  - no_lf_tac.
+  - no_lf_tac.
+  - right. eexists. reflexivity.
+  - vm_compute. discriminate.
+Qed.
+
+Lemma ex_corrupt_cut : Corrupt (bs "@r2" ++ LF :: bs "AC") /\ Corrupt (bs "@r2" ++ LF :: bs "AC" ++ LF :: bs "+" ++ [LF]).
+Proof.
+  split.
+  - apply (Corrupt_cut [bs "@r2"; bs "AC"]). 2: cbn; lia.
+    apply (text_cons (bs "@r2") [bs "AC"] (bs "AC")). no_lf_tac.
+    apply text_last. no_lf_tac. discriminate.
+  - apply (Corrupt_cut [bs "@r2"; bs "AC"; bs "+"]). 2: cbn; lia.
+    apply (text_cons (bs "@r2") [bs "AC"; bs "+"] (bs "AC" ++ LF :: bs "+" ++ [LF])). no_lf_tac.
+    apply (text_cons (bs "AC") [bs "+"] (bs "+" ++ [LF])). no_lf_tac.
+    apply (text_cons (bs "+") [] []). no_lf_tac. apply text_nil.
+Qed.
+
+Lemma ex_corruption_run :
+  decode (concat (map write [ex_r1; ex_r3]) ++ bs "@r2" ++ LF :: bs "AC" ++ LF :: bs "+" ++ LF :: bs "III" ++ LF :: write ex_r3) TEOF
+  = [Rec ex_r1; Rec ex_r3; ErrItem].
+Proof. vm_compute. reflexivity. Qed.
